@@ -243,7 +243,7 @@ def run_default(ctx: C.Ctx):
                 'spellings, non-identifiers, the tag key of tagged classes; for UNTAGGED classes — with or without a Meta.tag_key of their own — '
                 'also a key spelled exactly like the tag key in force, which is then an unknown key like any other) × the same call repeated 1..3 times × multi-step history over views of '
                 'the same class (through the case root, through a second root class with or without a raise policy of its own, loaded on its own; '
-                'before or after one another, each view with its own U and judged by the policy effective in that view), default engine: outcome '
+                'before or after one another, each view with its own U and judged by the policy effective in that view) × for CatchAll classes what the application does with the results between the loads (keeps them all; annotates / overwrites / pops / empties the CatchAll mapping of earlier results: no two results share one mapping, later loads hold exactly their own U, kept results are unchanged at the end), default engine: outcome '
                 'vs the specification, vs the Lean model, and to_dict(from_dict(d)) for catch-all. Non-trivial = distinct (class, document) with U non-empty.')
     n = ctx.quick(700, 8000)
     reqs, pend = [], []
@@ -693,7 +693,7 @@ def run_v1(ctx: C.Ctx):
                 'directly with and without their tag key in the document × a set U of 0..3 extra keys (as in the default stream) × 1..3 repetitions '
                 '× the way the policy is written down (KeyAction member / its name in upper or lower case; in the first Meta of the class, or '
                 'added by a later LoadMeta(..).bind_to on a class that has an inner Meta or an earlier DumpMeta / LoadMeta binding) '
-                '× history (class first used by a load / first used by a dump of an instance built in code / reached through a second root class): '
+                '× history (class first used by a load / first used by a dump of an instance built in code / reached through a second root class) × for CatchAll classes the application writing into the CatchAll mappings of earlier results between the loads (ownership, as in the default stream): '
                 'outcome vs the specification (RAISE rejects iff U non-empty and names only unknown keys and the class; WARN logs and loads; '
                 'catch-all holds exactly U in document order, never the tag key, else its default; to_dict writes U back), vs the Lean model of the '
                 'v1 engine (op loadv1) and, for dump-first, vs the dump model. Non-trivial = distinct (class, document) with U non-empty.')
